@@ -490,7 +490,12 @@ func filterGetdigit(in *Value, param *Value) (*Value, *Error) {
 	if i <= 0 || i > l {
 		return in, nil
 	}
-	return AsValue(in.String()[l-i] - 48), nil
+	c := in.String()[l-i]
+	if c < '0' || c > '9' {
+		// no digit at that position (a sign, or the input is not a whole number)
+		return in, nil
+	}
+	return AsValue(c - 48), nil
 }
 
 const filterIRIChars = "/#%[]=:;$&()+,!?*@'~"
